@@ -79,6 +79,12 @@ func featureFor(prop string, idx int) string {
 		return "rollback-annotation-with-traffic"
 	case idx%8 == 6 && in("C07"):
 		return "spec-grace-zero"
+	case idx%16 == 11 && in("C07", "C02", "C11"):
+		return "backward-jump"
+	case idx%16 == 7 && in("C01"):
+		return "scale-down-then-advance"
+	case idx%16 == 3 && in("C10"):
+		return "exit-at-completed"
 	}
 	return ""
 }
@@ -90,6 +96,10 @@ func GenForCase(prop string, rng *rand.Rand, idx int) *sim.Scenario {
 	switch feature {
 	case "rollback-batches", "rollback-annotation-with-traffic":
 		fam = "cloneset/partition"
+	case "backward-jump":
+		fam = []string{"deployment/bluegreen", "cloneset/bluegreen", "deployment/bluegreen", "cloneset/partition", "deployment/canary"}[idx/16%5]
+	case "scale-down-then-advance":
+		fam = []string{"deployment/canary", "deployment/canary", "cloneset/partition", "deployment/bluegreen"}[idx/16%4]
 	case "spec-grace-zero":
 		if fam == "daemonset/partition" {
 			fam = "cloneset/partition" // (a DaemonSet release with traffic routing never ends: recorded finding)
@@ -122,6 +132,45 @@ func genForFamilyF(prop string, rng *rand.Rand, family, feature string) *sim.Sce
 		s.RollbackInBatch = true
 		s.NoCanarySvc = rng.Intn(2) == 0
 		s.Events = append(s.Events, sim.Injected{AtStep: 1 + rng.Intn(len(s.Steps)), AtState: states[rng.Intn(len(states))], Action: "rollback", Immediate: rng.Intn(2) == 0})
+		return s
+	}
+	if feature == "backward-jump" {
+		// the user sends the release back to an earlier step after a later batch has been finished
+		R := int(s.Replicas)
+		if R < 4 {
+			R = 4
+			s.Replicas = 4
+		}
+		s.Steps = []sim.Step{{Replicas: "1", Traffic: -1, Pause: -1}, {Replicas: fmt.Sprint(R / 2), Traffic: -1, Pause: -1}, {Replicas: fmt.Sprint(R), Traffic: -1, Pause: -1}}
+		if s.HasTraffic() {
+			s.Steps[0].Traffic, s.Steps[1].Traffic, s.Steps[2].Traffic = 10, 50, 100
+		}
+		from := 2 + rng.Intn(2)
+		s.Events = append(s.Events, sim.Injected{AtStep: from, AtState: []string{"StepPaused", "StepPaused", "StepUpgrade"}[rng.Intn(3)], Action: fmt.Sprintf("jump:%d", 1+rng.Intn(from-1)), Immediate: rng.Intn(2) == 0})
+		return s
+	}
+	if feature == "scale-down-then-advance" {
+		// the user shrinks the workload while a step is paused and approves the next step before the workload's status
+		// has caught up with the new size
+		s.Replicas = int32(8 + rng.Intn(9))
+		s.Steps = []sim.Step{{Replicas: "20%", Traffic: -1, Pause: -1}, {Replicas: "50%", Traffic: -1, Pause: -1}, {Replicas: "80%", Traffic: -1, Pause: -1}}
+		if s.HasTraffic() {
+			s.Steps[0].Traffic, s.Steps[1].Traffic, s.Steps[2].Traffic = 20, 50, 80
+		}
+		s.ApproveLag = 0
+		s.Profile = "ctrl-eager"
+		s.Events = append(s.Events, sim.Injected{AtStep: 1 + rng.Intn(2), AtState: "StepPaused", Action: fmt.Sprintf("scale:%d", int(s.Replicas)/2), Immediate: true})
+		return s
+	}
+	if feature == "exit-at-completed" {
+		// a rollback / new revision that arrives in the reconcile between "last step done" and the start of the cleanup
+		s.Events = append(s.Events, sim.Injected{AtStep: len(s.Steps), AtState: "Completed", Action: []string{"rollback", "rollback", "v3"}[rng.Intn(3)], Immediate: true})
+		if !s.HasTraffic() {
+			s.Provider = []string{"ingress:nginx", "gateway", "custom"}[rng.Intn(3)]
+			for i := range s.Steps {
+				s.Steps[i].Traffic = 10 + rng.Intn(80)
+			}
+		}
 		return s
 	}
 	if feature == "spec-grace-zero" {
